@@ -412,6 +412,8 @@ func isFloat(t types.Type) bool {
 	return ok && b.Info()&types.IsFloat != 0
 }
 
+var zero8, zero64, zeroFP = BV(0, 8), BV(0, 64), FP(0)
+
 func zero(t types.Type) Value {
 	switch u := t.Underlying().(type) {
 	case *types.Basic:
@@ -422,10 +424,16 @@ func zero(t types.Type) Value {
 			return &Str{}
 		}
 		if w, _ := width(t); w > 0 {
+			switch w {
+			case 8:
+				return zero8
+			case 64:
+				return zero64
+			}
 			return BV(0, w)
 		}
 		if isFloat(t) {
-			return FP(0)
+			return zeroFP
 		}
 		if u.Kind() == types.UnsafePointer {
 			return Ptr{}
@@ -908,8 +916,18 @@ func (x *Exec) eval(fr *frame, ins ssa.Value) Value {
 		c := x.concretize(x.get(fr, ins.Cap).(*Term), 0, 1<<16, true)
 		et := ins.Type().Underlying().(*types.Slice).Elem()
 		a := &ArrayObj{e: make([]Obj, c)}
-		for i := range a.e {
-			a.e[i] = newObj(et)
+		if _, isBasic := et.Underlying().(*types.Basic); isBasic {
+			// bulk allocation: one backing array of cells sharing the (immutable) zero value
+			z := zero(et)
+			cells := make([]Cell, c)
+			for i := range cells {
+				cells[i].v = z
+				a.e[i] = &cells[i]
+			}
+		} else {
+			for i := range a.e {
+				a.e[i] = newObj(et)
+			}
 		}
 		return SliceV{a: a, len: n, cap: c}
 	case *ssa.MakeClosure:
